@@ -6,6 +6,7 @@ mod table;
 mod comp;
 mod peaks;
 mod gens;
+mod spec;
 mod exec;
 
 fn main() {
